@@ -234,3 +234,121 @@ func methodName(obj types.Object) string {
 	}
 	return obj.Name()
 }
+
+// ---- role of a parameter, decided by what its callers pass (names are not evidence) ----
+
+// callArgsOf: the values the module's static callers pass for parameter idx of f.
+func callArgsOf(p *core.Prog, f *ssa.Function, idx int) []ssa.Value {
+	var out []ssa.Value
+	for _, g := range p.ModFuncs() {
+		for _, b := range g.Blocks {
+			for _, in := range b.Instrs {
+				if c, ok := in.(ssa.CallInstruction); ok && c.Common().StaticCallee() == f && idx < len(c.Common().Args) {
+					out = append(out, c.Common().Args[idx])
+				}
+			}
+		}
+	}
+	return out
+}
+
+func paramRole(prm *ssa.Parameter, depth int, pred func(ssa.Value) bool) bool {
+	return paramRoleSeen(prm, map[*ssa.Parameter]bool{}, pred)
+}
+
+func paramRoleSeen(prm *ssa.Parameter, seen map[*ssa.Parameter]bool, pred func(ssa.Value) bool) bool {
+	p := methodNameProg
+	if p == nil || prm.Parent() == nil || len(seen) > 12 {
+		return false
+	}
+	if seen[prm] {
+		return true // a cycle adds no new sources
+	}
+	seen[prm] = true
+	args := callArgsOf(p, prm.Parent(), paramIndex(prm.Parent(), prm))
+	if len(args) == 0 {
+		return false
+	}
+	for _, a := range args {
+		if pred(a) {
+			continue
+		}
+		if ap, ok := a.(*ssa.Parameter); ok && paramRoleSeen(ap, seen, pred) {
+			continue
+		}
+		return false
+	}
+	return true
+}
+
+// isMajorParam: a uint8 parameter that only ever receives a CBOR major type
+// (a constant whose low five bits are zero).
+func isMajorParam(prm *ssa.Parameter) bool {
+	if b, ok := prm.Type().Underlying().(*types.Basic); !ok || b.Kind() != types.Uint8 {
+		return false
+	}
+	return paramRole(prm, 0, func(a ssa.Value) bool {
+		if c, ok := constIntVal(a); ok {
+			return c&31 == 0 && c >= 0 && c <= 0xe0
+		}
+		// the head byte's major bits
+		if bo, ok := a.(*ssa.BinOp); ok && bo.Op == token.AND {
+			if c, ok := constIntVal(bo.Y); ok && c == 0xe0 {
+				return true
+			}
+		}
+		return false
+	})
+}
+
+// isMinorParam: a uint8 parameter that only ever receives the low five bits of
+// a head byte (x & 31).
+func isMinorParam(prm *ssa.Parameter) bool {
+	if b, ok := prm.Type().Underlying().(*types.Basic); !ok || b.Kind() != types.Uint8 {
+		return false
+	}
+	return paramRole(prm, 0, func(a ssa.Value) bool {
+		for i := 0; i < 3; i++ {
+			switch x := a.(type) {
+			case *ssa.BinOp:
+				if x.Op == token.AND {
+					if c, ok := constIntVal(x.Y); ok && c == 31 {
+						return true
+					}
+				}
+				return false
+			case *ssa.Convert:
+				a = x.X
+				continue
+			case *ssa.UnOp:
+				// a field that was filled from x & 31 (state.minor)
+				if x.Op == token.MUL {
+					if fa, ok := x.X.(*ssa.FieldAddr); ok {
+						st := fa.X.Type().Underlying().(*types.Pointer).Elem().Underlying().(*types.Struct)
+						return core.FieldName(st, fa.Field) == "minor"
+					}
+				}
+				return false
+			}
+			return false
+		}
+		return false
+	})
+}
+
+// isLiteralTableParam: a []byte parameter that only ever receives a
+// package-level table (the expected spelling of a literal), never input.
+func isLiteralTableParam(prm *ssa.Parameter) bool {
+	return paramRole(prm, 0, func(a ssa.Value) bool {
+		if cv, ok := a.(*ssa.Convert); ok {
+			_, isC := cv.X.(*ssa.Const)
+			return isC // []byte("literal")
+		}
+		ld, ok := a.(*ssa.UnOp)
+		if !ok || ld.Op != token.MUL {
+			return false
+		}
+		_, isG := ld.X.(*ssa.Global)
+		return isG
+	})
+}
